@@ -1271,12 +1271,24 @@ func (s *State) evalIntegerInfixExpression(operator token.Type, leftVal, rightVa
 	case token.ASTERISK:
 		return object.Integer{Value: leftVal * rightVal}
 	case token.SLASH:
+		if rightVal == 0 {
+			return s.NewError("division by zero")
+		}
 		return object.Integer{Value: leftVal / rightVal}
 	case token.PERCENT:
+		if rightVal == 0 {
+			return s.NewError("division by zero")
+		}
 		return object.Integer{Value: leftVal % rightVal}
 	case token.LEFTSHIFT:
+		if rightVal < 0 {
+			return s.NewError("negative shift count")
+		}
 		return object.Integer{Value: leftVal << rightVal}
 	case token.RIGHTSHIFT:
+		if rightVal < 0 {
+			return s.NewError("negative shift count")
+		}
 		return object.Integer{Value: int64(uint64(leftVal) >> rightVal)} //nolint:gosec // we want to be able to shift the hight bit.
 	case token.BITAND:
 		return object.Integer{Value: leftVal & rightVal}
@@ -1286,8 +1298,11 @@ func (s *State) evalIntegerInfixExpression(operator token.Type, leftVal, rightVa
 		return object.Integer{Value: leftVal ^ rightVal}
 	case token.COLON:
 		lg := rightVal - leftVal
-		if lg < 0 {
+		if rightVal < leftVal {
 			return s.NewError("range index invalid: left greater then right")
+		}
+		if lg < 0 { // the difference overflowed: more than 2^63 elements.
+			return s.NewError("range too large")
 		}
 		arr := object.MakeObjectSlice(int(lg))
 		for i := leftVal; i < rightVal; i++ {
